@@ -48,7 +48,9 @@ const (
 
 // Op is one step of a program. Value-producing ops append one value.
 type Op struct {
-	// Kind: "const", "bin", "sel", "load", "lds", "loop", "if", "ifload", "ifstore", "store", "exit"
+	// Kind: "const", "bin", "sel", "load", "sload", "lds", "loop", "if", "ifload", "ifstore", "store", "exit"
+	// ("sload": scalar load of Wait+... see below: N = 1,2,4,8 dwords at byte offset Imm of input
+	// buffer K, XOR-ed together and broadcast to all lanes)
 	Kind string `json:"kind"`
 	// Op: binary operation (bin, loop body op1, if-then op) or compare (sel, if*)
 	Op  string `json:"op,omitempty"`
@@ -70,6 +72,8 @@ type Op struct {
 	WGDep bool `json:"wg_dep,omitempty"`
 	// Intra: lds exchange partner stays inside the item's own wavefront (rotation by Imm mod 64)
 	Intra bool `json:"intra,omitempty"`
+	// N: sload: number of dwords (1, 2, 4, 8)
+	N int `json:"n,omitempty"`
 }
 
 // Program is a whole kernel.
@@ -305,6 +309,14 @@ func (p *Program) Validate() error {
 			err = ref(o.A)
 			if o.K < 0 || o.K > 1 {
 				err = fmt.Errorf("bad buffer")
+			}
+		case "sload":
+			if o.K < 0 || o.K > 1 {
+				err = fmt.Errorf("bad buffer")
+			} else if o.N != 1 && o.N != 2 && o.N != 4 && o.N != 8 {
+				err = fmt.Errorf("bad scalar load width")
+			} else if o.Imm%4 != 0 || int(o.Imm)/4+o.N > 1<<p.InLog2[o.K] {
+				err = fmt.Errorf("scalar load out of range")
 			}
 		case "lds":
 			err = ref(o.A)
